@@ -338,6 +338,10 @@ func check(id, tier string) int {
 	if tier == "thorough" {
 		tc = cfg.Thorough
 	}
+	if os.Getenv("VERIF_FUZZ_ONLY") != "" {
+		// development aid: only the native fuzz campaigns (with VERIF_FUZZ_IN_QUICK / VERIF_FUZZ_TIME)
+		tc.Shards, cfg.Floor = 0, 0
+	}
 	rundir, err := os.MkdirTemp("", "verif-run-"+id+"-")
 	if err != nil {
 		fatal2("%v", err)
@@ -528,6 +532,7 @@ func check(id, tier string) int {
 			fuzzExecs[target] = map[string]any{
 				"execs": st.Execs, "oracle_evaluations": st.res.Evaluations, "rejected_inputs": st.res.Rejected,
 				"distinct_nontrivial": len(st.nt), "candidates": st.Candidates, "confirmed": st.Confirmed, "budget": budget.String(),
+				"restarts": st.Restarts, "notes": st.Notes,
 			}
 			merged.Evaluations += st.res.Evaluations
 			merged.Rejected += st.res.Rejected
